@@ -178,6 +178,12 @@ def gen_cases(ctx):
                 cases.append({"supported": sup, "preferred": pref, "answer": ans, "noise": [], "tracked": bool(bp % 2),
                               "timeout": tmo, "backpressure": busy})
                 bp += 1
+    # the subprocess-backed entry point (stdio_client_with_initialize): same contract, the CALLER's list
+    for ci, (sup, pref) in enumerate(cfgs):
+        if sup is not None and len(sup) > 2 and not full:
+            continue
+        for ans in (va if full else [va[ci % len(va)], va[(ci + 3) % len(va)]]):
+            cases.append({"supported": sup, "preferred": pref, "answer": ans, "noise": [], "tracked": False, "entry": "wrapper"})
     # degenerate probes: the empty string as preferred / member (outside the property's universe; correspondence only)
     for sup, pref, ans in ((["2025-06-18", ""], "", {"kind": "version", "value": ""}),
                            (["", "2025-06-18"], "", {"kind": "version", "value": "2025-06-18"}),
@@ -195,7 +201,7 @@ def run_impl(cases):
     async def main():
         out = []
         for c in cases:
-            out.append(await N.run_client_case(c))
+            out.append(await (N.run_wrapper_case(c) if c.get("entry") == "wrapper" else N.run_client_case(c)))
         return out
     return vrun(main)
 
@@ -221,7 +227,7 @@ def judge(ctx, cases, impl, model, spec, library):
         ctx.count("preferred:" + pref_class(case, library))
         ctx.count("outcome:" + c["outcome"][0])
         ctx.count("noise:" + str(len(case["noise"])))
-        ctx.count("variant:" + ("tracked" if case["tracked"] else "plain"))
+        ctx.count("variant:" + ("wrapper-entry-point" if case.get("entry") == "wrapper" else "tracked" if case["tracked"] else "plain"))
         if mres is not None:
             m = N.canon_model(mres[i], case["tracked"])
             if m != c:
